@@ -33,7 +33,7 @@ m = {
                  'kind_free_text': 'symbolic interpreter for rustc MIR (-Zunpretty=mir of /repo and of the smawk dependency), concrete structure + symbolic scalars, DFS by decision prefix sharded over 16 processes, z3 (Python API) as the deciding solver; native runner (native/) replays counterexamples and validates interpreter paths against the compiled crate'}],
     'checks': checks,
     'not_applicable': na,
-    'notes': 'Solver-based checking of the real code. Every check regenerates the MIR from /repo, explores each stated input space completely (all values of the symbolic scalars), replays counterexamples against the natively compiled crate (debug and release) before printing VIOLATION, and exits 2 (INCONCLUSIVE) rather than 0 on unsupported MIR, solver unknown, model/native disagreement or deadline.'
+    'notes': 'Solver-based checking of the real code. Every check regenerates the MIR from /repo, explores each stated input space completely (all values of the symbolic scalars), replays counterexamples against the natively compiled crate (debug and release) before printing VIOLATION, and exits 2 (INCONCLUSIVE) rather than 0 on unsupported MIR, solver unknown, model/native disagreement or (quick tier) an unfinished space. The thorough tier has a time budget of 2700 s per check that is a stated bound: when reached, the run prints a NOTE, lists the partly explored spaces in the evidence file and exits 0 if everything explored held. Besides flat N-character inputs every check explores sentence templates (paragraph-sized concrete texts with symbolic positions; DESIGN.md 0.1).'
 }
 json.dump(m, open(os.path.join(V, 'MANIFEST.json'), 'w'), indent=1)
 print('claimed', len(checks), 'not applicable', len(na))
